@@ -2,6 +2,7 @@ package stanza
 
 import (
 	"encoding/xml"
+	"errors"
 	"strconv"
 	"strings"
 )
@@ -91,6 +92,13 @@ func (x Err) MarshalXML(e *xml.Encoder, start xml.StartElement) (err error) {
 		return nil
 	}
 
+	// The condition is written as the name of an element. A Reason that is not a name
+	// would be copied into the markup as it stands ("a/><b" closes the condition and opens
+	// another element): refuse it before anything is written.
+	if x.Reason != "" && !isElementName(x.Reason) {
+		return errors.New("stanza: error condition " + strconv.Quote(x.Reason) + " is not an XML element name")
+	}
+
 	// Encode start element and attributes
 	start.Name = xml.Name{Local: "error"}
 
@@ -144,4 +152,15 @@ func (x Err) MarshalXML(e *xml.Encoder, start xml.StartElement) (err error) {
 	}
 
 	return e.EncodeToken(xml.EndElement{Name: start.Name})
+}
+
+// isElementName reports whether s can be written as the local name of an element: the
+// decoder reads <s/> as one element of exactly that name, without prefix or attributes.
+func isElementName(s string) bool {
+	if strings.ContainsRune(s, ':') {
+		return false
+	}
+	tok, err := xml.NewDecoder(strings.NewReader("<" + s + "/>")).RawToken()
+	start, ok := tok.(xml.StartElement)
+	return err == nil && ok && start.Name.Local == s && len(start.Attr) == 0
 }
